@@ -559,6 +559,12 @@ class C15(Check):
         'hmf_direct_from_solve', 'hmf_large_n:1000', 'hmf_large_n:1024', 'hmf_large_n:2000', 'hmf_large_n:2001', 'hmf_large_n:2048',
         'hmf_large_n:4097', 'hmf_same_seed_pairs_above_2000_spectra',
         'pcomp_nobs_eq_nvar', 'pcomp_nobs_plus_1_nvar', 'pcomp_nobs_minus_1_nvar',
+        'pcomp_design:first_isolated', 'pcomp_design:last_isolated', 'pcomp_design:middle_isolated', 'pcomp_design:all_orthogonal',
+        'pcomp_design:blocks', 'pcomp_design:exchangeable_pair', 'pcomp_design:duplicate_variable',
+        'pcomp_first_variable_exactly_uncorrelated', 'pcomp_last_variable_exactly_uncorrelated',
+        'pcomp_middle_variable_exactly_uncorrelated', 'pcomp_exactly_diagonal_matrix', 'pcomp_exactly_block_structured_matrix',
+        'pcomp_equal_variance_correlated_pair', 'pcomp_exactly_singular_matrix',
+        'pcomp_components_with_an_exactly_zero_loading', 'pcomp_components_with_loadings_summing_to_exactly_zero',
         'pcomp_two_variable_cases', 'hmf_seed_zero_cases', 'chi2_cancellation_would_show', 'chi2_cancellation_would_show_float32', 'hmf_reported_badness_checked',
         'chi2_zero_weight_cases', 'chi2_discriminating', 'pcomp_wide_cases', 'pca_projections', 'pca_masked_columns',
     )
@@ -612,6 +618,7 @@ class C15(Check):
             'chi2_shapes': 350 if q else 5600,
             'pcomp_tall': 700 if q else 10000,
             'pcomp_wide': 400 if q else 6000,
+            'pcomp_design': 240 if q else 4800,
             'hmf_exact': 100 if q else 1600,
             'hmf_smooth': 100 if q else 1600,
             'hmf_nonneg': 80 if q else 1200,
@@ -630,6 +637,8 @@ class C15(Check):
             return self._gen_chi2_shapes(rng, g, i)
         if cls.startswith('chi2'):
             return self._gen_chi2(cls, rng, g)
+        if cls == 'pcomp_design':
+            return self._gen_pcomp_design(rng, g, i)
         if cls.startswith('pcomp'):
             return self._gen_pcomp(cls, rng, g)
         if cls == 'hmf_order':
@@ -828,6 +837,96 @@ class C15(Check):
         rng.shuffle(order)
         return {'kind': 'pcomp', 'x': _lists(x), 'covariance': covariance, 'standardize': standardize,
                 'integer': integer, 'order': order}
+
+    PCOMP_LAYOUTS = ('first_isolated', 'last_isolated', 'middle_isolated', 'all_orthogonal', 'blocks', 'exchangeable_pair',
+                     'duplicate_variable', 'first_isolated')
+
+    @staticmethod
+    def _design_parts(layout, order_h, rng, g):
+        h = np.array([[1.0]])
+        while h.shape[0] < order_h:
+            h = np.block([[h, h], [h, -h]])
+        free = list(range(1, order_h))               # column 0 is constant
+        rng.shuffle(free)
+
+        def take(k):
+            cols = [free.pop() for _ in range(k)]
+            return h[:, cols]
+
+        def block(nvar):
+            """nvar variables spanned by nvar..nvar+1 design columns, every variable correlated with the next one"""
+            base = take(nvar + (1 if rng.random() < 0.5 else 0))
+            while True:
+                co = g.integers(-3, 4, size=(base.shape[1], nvar)).astype('f8')
+                co[np.arange(nvar), np.arange(nvar)] = g.choice([-3, -2, -1, 1, 2, 3], size=nvar)   # no constant variable
+                if nvar == 1 or all((co[:, k] * co[:, k + 1]).sum() != 0 for k in range(nvar - 1)):
+                    return base @ co
+
+        if layout in ('first_isolated', 'last_isolated', 'middle_isolated'):
+            rest = [block(rng.randint(2, 3))] + ([block(rng.randint(1, 3))] if rng.random() < 0.4 else [])
+            iso = block(1) * rng.randint(1, 3)
+            if layout == 'first_isolated':
+                parts = [iso] + rest
+            elif layout == 'last_isolated':
+                parts = rest + [iso]
+            else:
+                parts = [rest[0][:, :1], iso, rest[0][:, 1:]] + rest[1:]
+        elif layout == 'all_orthogonal':
+            parts = [block(1) * rng.randint(1, 4) for _ in range(rng.randint(2, 6))]
+        elif layout == 'blocks':
+            parts = [block(rng.randint(1, 3)) for _ in range(rng.randint(2, 3))]
+            x_ = np.hstack(parts)
+            parts = [x_[:, g.permutation(x_.shape[1])]]          # members of a block need not be adjacent
+        elif layout == 'exchangeable_pair':
+            uv = take(2)
+            a, b = rng.choice([(2, 1), (3, 1), (3, 2), (1, -2), (3, -1)])
+            pair = np.column_stack([a * uv[:, 0] + b * uv[:, 1], b * uv[:, 0] + a * uv[:, 1]])     # equal variances, covariance 2ab
+            parts = [pair] + ([block(rng.randint(1, 2))] if rng.random() < 0.5 else [])
+            if rng.random() < 0.5:
+                parts = parts[::-1]
+        else:                                        # duplicate_variable: one variable an exact multiple of another
+            b0 = block(rng.randint(2, 3))
+            k = rng.randrange(b0.shape[1])
+            dup = b0[:, k:k + 1] * rng.choice([1, 1, 2, -1, -3])
+            parts = [b0, dup] + ([block(1)] if rng.random() < 0.5 else [])
+            if rng.random() < 0.5:
+                parts = parts[::-1]
+        return parts
+
+    def _gen_pcomp_design(self, rng, g, i):
+        """Structured ("designed") data: the variables are small-integer combinations of balanced, mutually orthogonal two-level
+        columns (Sylvester-Hadamard design, optionally replicated, rows shuffled), so that the correlation / covariance matrix
+        has *exactly* representable entries: variables of different blocks are exactly uncorrelated (block-diagonal matrix, the
+        eigenvectors have loadings that are exactly zero), two variables can have exactly equal variances (the eigenvectors are
+        the exact sum and contrast, loadings summing to exactly zero) or be exact multiples of one another (an eigenvalue that
+        is exactly zero).  Layouts place the isolated variable first / last / in the middle, make every variable a block of its
+        own (diagonal matrix, in correlation mode the identity: all eigenvalues tie), or mix blocks.  Integer offsets and integer
+        or power-of-two scales keep every sum exact; flavour 'float_units' multiplies by an arbitrary factor (exactness no longer
+        guaranteed - the property holds either way)."""
+        layout = self.PCOMP_LAYOUTS[i % len(self.PCOMP_LAYOUTS)]
+        order_h = rng.choice([8, 16, 16, 32])
+        while True:
+            try:
+                parts = self._design_parts(layout, order_h, rng, g)
+                break
+            except IndexError:                       # more design columns needed than this order has
+                order_h *= 2
+        x = np.hstack(parts)
+        x = np.tile(x, (rng.choice([1, 1, 2, 3]), 1))            # replicated design: still balanced
+        x = x[g.permutation(x.shape[0])]
+        m = x.shape[1]
+        flavour = rng.choice(['levels', 'integer_units', 'integer_units', 'dyadic_units', 'float_units'])
+        if flavour == 'integer_units':
+            x = x * g.integers(1, 1000, size=(1, m)) + g.integers(-1000, 1001, size=(1, m))
+        elif flavour == 'dyadic_units':
+            x = x * 2.0 ** g.integers(-10, 11, size=(1, m)) + g.integers(-8, 9, size=(1, m))
+        elif flavour == 'float_units':
+            x = x * 10.0 ** g.uniform(-2, 2, size=(1, m)) + g.normal(size=(1, m)) * rng.choice([0.0, 1.0, 100.0])
+        integer = flavour in ('levels', 'integer_units') and rng.random() < 0.5
+        order = ['coefficients', 'derived', 'variance', 'eigenvalues']
+        rng.shuffle(order)
+        return {'kind': 'pcomp', 'cls': 'pcomp_design', 'layout': layout, 'flavour': flavour, 'x': _lists(x),
+                'covariance': rng.random() < 0.5, 'standardize': rng.random() < 0.15, 'integer': integer, 'order': order}
 
     def _gen_hmf(self, cls, rng, g):
         q = self.tier == 'quick'
@@ -1256,6 +1355,42 @@ class C15(Check):
             ('B2(same sample, %s matrix)' % ('correlation' if cov else 'covariance'), pcomp_factory(x, not cov)),
             ('C(one more observation)', pcomp_factory(np.vstack([x, x[:1] * 3 + 2]), cov)),
         ], orders)
+        if case.get('layout'):
+            # structured data: which exact structure did the matrix handed to the eigen-solver have, and did it show in the result?
+            out.count('pcomp_design:' + case['layout'])
+            out.count('pcomp_design_flavour:' + case['flavour'])
+            off = C - np.diag(np.diag(C))
+            if m >= 2 and not std:
+                if not off[0].any():
+                    out.count('pcomp_first_variable_exactly_uncorrelated')
+                if not off[-1].any():
+                    out.count('pcomp_last_variable_exactly_uncorrelated')
+                if any(not off[k].any() for k in range(1, m - 1)):
+                    out.count('pcomp_middle_variable_exactly_uncorrelated')
+                if not off.any():
+                    out.count('pcomp_exactly_diagonal_matrix')
+                elif (off == 0).sum() >= 2:
+                    out.count('pcomp_exactly_block_structured_matrix')
+                d = np.diag(C)
+                if cov and any(d[j] == d[k] and C[j, k] != 0 for j in range(m) for k in range(j)):
+                    out.count('pcomp_equal_variance_correlated_pair')
+                if ok and float(np.min(np.abs(ev))) <= 1e-13 * big:
+                    out.count('pcomp_exactly_singular_matrix')
+            if ok and fin:
+                live = ev > 1e-9 * big
+                zl = int(((co == 0).any(0) & live).sum())
+                if zl:
+                    out.count('pcomp_components_with_an_exactly_zero_loading', zl)
+                sl = int(((co.sum(0) == 0) & live).sum())
+                if sl:
+                    out.count('pcomp_components_with_loadings_summing_to_exactly_zero', sl)
+                # every variable has its variance accounted for: the diagonal of the outer product is the diagonal of the matrix
+                # (stated separately so that the witness names the variable whose components were lost)
+                dg = np.abs(np.sum(co * co, axis=1) - np.diag(C)) / big
+                out.expect(bool((dg <= TOL_PCOMP).all()), 'pcomp-components',
+                           'sum of squared loadings of variable %d is %.6g, its %s is %.6g (layout %s)' % (
+                               int(np.argmax(dg)), float(np.sum(co * co, axis=1)[int(np.argmax(dg))]),
+                               'variance' if cov else 'self-correlation', float(np.diag(C)[int(np.argmax(dg))]), case['layout']))
         if n <= m:
             out.count('pcomp_wide_cases')
         if m == 2:
